@@ -1,0 +1,73 @@
+//! Read-only observation points for external verification tooling.
+//!
+//! Compiled only with `--cfg grex_verif`. Nothing in here changes what the library computes:
+//! while a capture is active on the current thread, the pipeline stages executed by `build()`
+//! record plain-data snapshots of their intermediate results.
+
+use std::cell::RefCell;
+
+#[derive(Clone, Debug, PartialEq, Eq)]
+pub struct Label {
+    pub chars: Vec<String>,
+    pub min: u32,
+    pub max: u32,
+    pub nested: Vec<Label>,
+}
+
+#[derive(Clone, Debug, Default, PartialEq, Eq)]
+pub struct Automaton {
+    pub state_count: usize,
+    pub start: usize,
+    pub finals: Vec<usize>,
+    pub edges: Vec<(usize, usize, Label)>,
+}
+
+#[derive(Clone, Debug, PartialEq, Eq)]
+pub enum Event {
+    /// Test cases after case conversion, sorting and deduplication.
+    TestCases(Vec<String>),
+    /// Grapheme clusters after class and repetition conversion, one list per test case.
+    Clusters(Vec<Vec<Label>>),
+    /// Automaton right after inserting all clusters (before any minimization).
+    Trie(Automaton),
+    /// Automaton after minimization.
+    Minimized(Automaton),
+    /// Expression obtained from an automaton by state elimination.
+    Expression(String),
+}
+
+thread_local! {
+    static EVENTS: RefCell<Option<Vec<Event>>> = const { RefCell::new(None) };
+}
+
+pub(crate) fn is_capturing() -> bool {
+    EVENTS.with(|it| it.borrow().is_some())
+}
+
+pub(crate) fn record(event: impl FnOnce() -> Event) {
+    if is_capturing() {
+        let event = event();
+        EVENTS.with(|it| {
+            if let Some(events) = it.borrow_mut().as_mut() {
+                events.push(event);
+            }
+        });
+    }
+}
+
+/// Runs `f` and returns its result together with all events
+/// recorded on the current thread while it was running.
+pub fn capture<T>(f: impl FnOnce() -> T) -> (T, Vec<Event>) {
+    struct Reset;
+    impl Drop for Reset {
+        fn drop(&mut self) {
+            EVENTS.with(|it| *it.borrow_mut() = None);
+        }
+    }
+    EVENTS.with(|it| *it.borrow_mut() = Some(vec![]));
+    let reset = Reset;
+    let result = f();
+    let events = EVENTS.with(|it| it.borrow_mut().take()).unwrap_or_default();
+    drop(reset);
+    (result, events)
+}
